@@ -104,7 +104,13 @@ pub fn process_cell<T: CoordsFloat>(
         // THIS CANNOT BE PARALLELIZED AS IS
         let b0_sdart = cmap.beta_transac::<0>(t, *sdart)?;
         let vid = cmap.vertex_id_transac(t, *sdart)?;
-        let v0 = cmap.read_vertex(t, vid)?.unwrap();
+        // not an `unwrap`: under concurrency this attempt may be looking at a torn snapshot in
+        // which `vid` no longer holds the vertex; report it, the transaction validates or retries
+        let Some(v0) = cmap.read_vertex(t, vid)? else {
+            abort(TriangulateError::UndefinedFace(
+                "one or more undefined vertices",
+            ))?
+        };
         try_or_coerce!(cmap.unsew::<1>(t, b0_sdart), TriangulateError);
         let mut d0 = *sdart;
         for sl in new_darts.chunks_exact(2) {
@@ -190,7 +196,11 @@ pub fn process_convex_cell<T: CoordsFloat>(
     // THIS CANNOT BE PARALLELIZED AS IS
     let b0_sdart = cmap.beta_transac::<0>(t, sdart)?;
     let vid = cmap.vertex_id_transac(t, sdart)?;
-    let v0 = cmap.read_vertex(t, vid)?.unwrap();
+    let Some(v0) = cmap.read_vertex(t, vid)? else {
+        abort(TriangulateError::UndefinedFace(
+            "one or more undefined vertices",
+        ))?
+    };
     try_or_coerce!(cmap.unsew::<1>(t, b0_sdart), TriangulateError);
     let mut d0 = sdart;
     for sl in new_darts.chunks_exact(2) {
